@@ -241,6 +241,22 @@ func c10Frames(c *Ctx, p *Prog, m *Model) {
 		"NewSlogHandler->SetJSONMode":         "NewSlogHandler configures the logger it is given (documented)",
 		"NewSlogHandler->SetColorMode":        "NewSlogHandler configures the logger it is given (documented)",
 	}
+	// NewSlogHandler(logger, options) configures the logger it is given, at construction, from the options (documented):
+	// any setter applied to its own logger parameter is that
+	allowFn := func(fn *ssa.Function, recv ssa.Value) bool {
+		if nm(fn) != "NewSlogHandler" || fn.Parent() != nil {
+			return false
+		}
+		for _, sv := range sources(recv) {
+			if prm, ok := sv.(*ssa.Parameter); !ok || prm != fn.Params[0] {
+				if call, isCall := sv.(*ssa.Call); isCall && invokeName(call) != "" {
+					continue // a setter's own result (setters return their receiver): chained configuration
+				}
+				return false
+			}
+		}
+		return true
+	}
 	for _, fn := range p.RepoFuncs() {
 		if fn.Pkg != p.Slog && fn.Parent() == nil {
 			continue
@@ -267,6 +283,10 @@ func c10Frames(c *Ctx, p *Prog, m *Model) {
 			if !ok {
 				if why, al := allow[shortName(fn)+"->"+name]; al {
 					r.OkTrivial("R10.1", key, p.Pos(instrPos(cs)), "allow-listed: %s", why)
+					continue
+				}
+				if allowFn(fn, recv) {
+					r.OkTrivial("R10.1", key, p.Pos(instrPos(cs)), "NewSlogHandler configures the logger it is given (documented)")
 					continue
 				}
 				r.Bad("R10.1", key, p.Pos(instrPos(cs)), "a mutator is applied to another logger (%s): configuring one logger reconfigures a different one", prov)
